@@ -42,7 +42,9 @@ Crashes == {99, 0, 1, 2, 10, 12}          \* 99: no crash; k: the build dies onc
 BuildFaults == {"none", "chunkput1", "chunkput2"}
 DeleteFaults == {"none", "attr1", "attr2", "attr3", "del1", "list1"}
 
-Mk(pre, c, crash, bf, between, df, pb, inc) ==
+\* rf: "scanlist" = the first resumed build after the crash hits a transient failure of a metadata listing
+\* (it must report the failure; the resume is then repeated)
+Mk(pre, c, crash, bf, between, df, pb, inc, rf) ==
   LET vis0 == VisAfter(pre, {})
       blobs0 == UNION {KeysOf(b) : b \in EverUp(pre)}
       index == UNION {KeysOf(b) : b \in vis0}
@@ -51,7 +53,7 @@ Mk(pre, c, crash, bf, between, df, pb, inc) ==
       \* reference outcome: blobs written before the index and not referenced go; later ones stay
       newBlobs == UNION {KeysOf(b) : b \in betw} \ blobs0
       refDeleted == blobs0 \ index
-  IN [pre |-> pre, prebuild |-> pb, chunk |-> c, crash |-> crash, buildfault |-> bf, between |-> betw, deletefault |-> df,
+  IN [pre |-> pre, prebuild |-> pb, chunk |-> c, crash |-> crash, buildfault |-> bf, resumefault |-> rf, between |-> betw, deletefault |-> df,
       visible |-> visEnd, index |-> index, blobsBefore |-> blobs0 \cup newBlobs,
       refDeleted |-> refDeleted,
       \* blobs re-used by an upload that started after the index must survive: the reference deletes
@@ -69,18 +71,21 @@ Pick ==
        THEN \E pre \in {R(Pres)}, c \in {R(ChunkSizes)}, crash \in {R(Crashes)}, bf \in {R(BuildFaults)},
                bw \in {R(SUBSET Bundles)}, df \in {R(DeleteFaults)} :
               \E pb \in {R(0..Len(pre))}, inc \in {R(BOOLEAN)} :
+              \E rf \in {R(IF crash = 99 THEN {"none"} ELSE {"none", "scanlist"})} :
               case' = Mk(pre, c, crash, IF crash = 99 THEN bf ELSE "none", bw, df, pb,
-                         inc /\ crash = 99 /\ bf = "none" /\ df = "none")
+                         inc /\ crash = 99 /\ bf = "none" /\ df = "none", rf)
        ELSE IF Late
        THEN \E pre \in {p \in Pres : \E i \in DOMAIN p : p[i] = [op |-> "up", b |-> "b5"]} :
               \E crash \in {99, 10, 12}, bw \in {{b} : b \in Bundles \ {"b5"}} :
-                case' = Mk(pre, 1, crash, "none", bw, "none", 0, crash = 99)
+                \E rf \in (IF crash = 99 THEN {"none"} ELSE {"none", "scanlist"}) :
+                case' = Mk(pre, 1, crash, "none", bw, "none", 0, crash = 99, rf)
        ELSE \E pre \in Pres, c \in ChunkSizes, crash \in Crashes, bw \in {{}} \cup {{b} : b \in Bundles} :
               \E f \in {"none"} \cup (IF crash = 99 THEN {"chunkput1", "attr1", "attr2", "del1"} ELSE {}) :
                 \E pb \in (IF crash = 99 /\ f = "none" THEN 0..Len(pre) ELSE {0}) :
                 \E inc \in (IF crash = 99 /\ f = "none" /\ pb = 0 /\ bw # {} THEN BOOLEAN ELSE {FALSE}) :
+                \E rf \in (IF crash \in {1, 2} /\ bw = {} THEN {"none", "scanlist"} ELSE {"none"}) :
                 case' = Mk(pre, c, crash, IF f = "chunkput1" THEN f ELSE "none", bw,
-                           IF f \in {"attr1", "attr2", "del1"} THEN f ELSE "none", pb, inc)
+                           IF f \in {"attr1", "attr2", "del1"} THEN f ELSE "none", pb, inc, rf)
   /\ stage' = "done"
   /\ UNCHANGED pvars
 
